@@ -477,9 +477,10 @@ class Key(metaclass=InlineDocstring):
         else:
             raise ValueError(f'Invalid or unsupported curve type: `{self.curve!r}`.')
 
-        if generic:
+        if generic and self.curve != b'BL':
             prefix = b'sig'
         else:
+            # NOTE: generic `sig` encoding holds 64 bytes only, a 96-byte BLS signature is always `BLsig`
             prefix = self.curve + b'sig'
 
         return base58_encode(signature, prefix).decode()
